@@ -892,6 +892,21 @@ void vf_search(const vf::Args& a)
 					ns++;
 					nt++;
 				}
+		// more threads than any fixed pool size a refactoring might introduce (after seeded C13-O): nth and the range both above 64 / 128 / 256
+		uint64_t nw = 0;
+		for (int nth : {63, 64, 65, 66, 100, 127, 128, 129, 200, 257})
+			for (int len : {nth - 1, nth, nth + 1, 2 * nth - 1, 2 * nth + 1, 3 * nth + 7})
+				for (int i0 : {0, -5}) {
+					if ((int)(idx++ % (uint64_t)a.workers) != a.worker)
+						continue;
+					vf::Case c;
+					c.add(vf::Op("pfor", {i0, i0 + len, nth, -100000}));
+					if (!vf::runner().run("pfor", c))
+						return;
+					nw++;
+					nt++;
+				}
+		vf::stats().cls("pfor.wide_63_to_257_threads", nw);
 		vf::stats().cls("pfor.grid_with_slow_last_thread", ns);
 		vf::stats().nt_counted(nt);
 		vf::stats().part("pfor.grid[-3,40]^2x[1,12]", n, true);
@@ -899,7 +914,7 @@ void vf_search(const vf::Args& a)
 	}();
 	// (2) sampled large ranges / slow index / jitter
 	[&]() {
-		auto g = gen::map(gen::tuple(vf::irange<int>(-1000, 1000), gen::oneOf(vf::irange<int>(0, 70), vf::irange<int>(0, 3000), vf::irange<int>(0, a.quick() ? 20000 : 1000000)), vf::irange<int>(1, 64),
+		auto g = gen::map(gen::tuple(vf::irange<int>(-1000, 1000), gen::oneOf(vf::irange<int>(0, 70), vf::irange<int>(0, 3000), vf::irange<int>(0, a.quick() ? 20000 : 1000000)), gen::oneOf(vf::irange<int>(1, 64), vf::irange<int>(65, 300)),
 		                             vf::irange<int>(0, 70), vf::irange<int>(1, 1000000)),
 		                  [=](const std::tuple<int, int, int, int, int>& t) {
 			                  vf::Case c;
